@@ -1,5 +1,5 @@
 (* C14 - store-level model: merge_adm / _update_node_delegations / unmerge_adm
-   (fim/graph/resources/neo4j_cbm.py:66-234), snapshot / rollback (abc_cbm.py:59-84), executed over the
+   (fim/graph/resources/neo4j_cbm.py:66-236), snapshot / rollback (abc_cbm.py:59-84), executed over the
    in-memory shared store (fim/graph/networkx_property_graph.py: one networkx graph holding every model,
    nodes carry GraphID / NodeID / Class and properties; clone_graph, update_nodes_property, merge_nodes =
    networkx contracted_nodes, delete_node, find_matching_nodes, graph_exists), and
@@ -72,8 +72,9 @@ Definition delete_node (i : N) (st : store) : store :=
 Definition delete_graph (g : N) (st : store) : store :=
   fold_left (fun s n => delete_node (n_int n) s) (of_gid g st) st.
 
-(* ---- networkx contracted_nodes(G, u, v, copy=False): v disappears, its edges are re-attached to u; an
-   edge that already exists keeps its own data and receives the 'contraction' attribute ---- *)
+(* ---- merge_nodes = networkx contracted_nodes(G, u, v, copy=False): v disappears, its edges are re-attached
+   to u; an edge that already exists keeps its own data and receives the 'contraction' attribute; then
+   (networkx_property_graph.py:668-671) the 'contraction' attribute is popped from every link of u ---- *)
 Definition joins (a b : N) (e : edge) : bool :=
   ((e_a e =? a) && (e_b e =? b)) || ((e_a e =? b) && (e_b e =? a)).
 Definition has_edge (a b : N) (es : list edge) : bool := existsb (joins a b) es.
@@ -83,10 +84,12 @@ Definition reattach (u v : N) (es : list edge) (e : edge) : list edge :=
   let x0 := if e_a e =? v then e_b e else e_a e in
   let x := if x0 =? v then u else x0 in
   if has_edge u x es then flag_edge u x es else es ++ [mkEdge u x (e_cls e) (e_oth e) (e_con e)].
+Definition pop_contraction (u : N) (es : list edge) : list edge :=
+  map (fun e => if (e_a e =? u) || (e_b e =? u) then set_con false e else e) es.
 Definition contract (u v : N) (st : store) : store :=
   let ev := filter (fun e => (e_a e =? v) || (e_b e =? v)) (s_edges st) in
   let st1 := delete_node v st in
-  mkStore (s_nodes st1) (fold_left (reattach u v) ev (s_edges st1)) (s_next st1).
+  mkStore (s_nodes st1) (pop_contraction u (fold_left (reattach u v) ev (s_edges st1))) (s_next st1).
 
 (* ---- rewrite_delegations(real_adm_id = adm) on one node ---- *)
 Definition rw_d (adm : N) (d : dval) : dval + exn :=
@@ -153,7 +156,7 @@ Definition merge_adm (cbm adm tmp : N) (st : store) : outcome :=
     then OErrU EPGQ else
     match fold_left (merge_one cbm tmp adm) common (Some st2) with
     | None => OErrU EAttr
-    | Some st3 => rehome tmp cbm st3
+    | Some st3 => if gexists tmp st3 then rehome tmp cbm st3 else OOk st3   (* nothing left to re-home *)
     end
   end.
 
